@@ -285,6 +285,9 @@ def check(prog, run):
     from . import c04
     c04.check_context_threading(prog, run, "V1")
     c04.check_memo_keys(prog, run, "M1")
+    from .. import valuetruth
+    valuetruth.check(prog, run, "N1", ["py_gql.utilities.coerce_value", "py_gql.utilities.value_from_ast", "py_gql.schema.scalars",
+                                       "py_gql.execution.wrappers", "py_gql.execution.executor"], 10)
 
 
 NUMERIC_CATALOGUE_TEXT = (
